@@ -1191,7 +1191,8 @@ def inline_locals(f, e, depth=3):
         if isinstance(n, ast.Assign):
             for t in n.targets:
                 for x in ast.walk(t):
-                    if isinstance(x, ast.Name):
+                    if isinstance(x, ast.Name) and isinstance(
+                            x.ctx, ast.Store):
                         counts[x.id] = counts.get(x.id, 0) + 1
                 if isinstance(t, ast.Name):
                     vals[t.id] = n.value
